@@ -33,7 +33,7 @@ def runCase (s : St) : String :=
     | some lang, some d =>
       let r := judgeCase lang s.text d.root s.api d.ranges
       let js := r.js
-      s!"{s.id} corr={r.corr.render} inv={if r.inv then "ok" else "BAD"} judge={r.judge.render} raw={js.rawNodes} vis={js.vnodes.size} inner={r.corrStats.inner} hiddenvis={js.hiddenWithVisible} alias={js.aliases} extra={js.extras} err={js.errors} missing={js.missing} multiline={js.multiline} zerowidth={js.zeroWidth} leaves={js.leaves} literals={js.literals} bytes={s.text.size} kind={s.kind}"
+      s!"{s.id} corr={r.corr.render} inv={if r.inv then "ok" else "BAD"} judge={r.judge.render} raw={js.rawNodes} vis={js.vnodes.size} inner={r.corrStats.inner} hiddenvis={js.hiddenWithVisible} alias={js.aliases} extra={js.extras} err={js.errors} missing={js.missing} multiline={js.multiline} zerowidth={js.zeroWidth} leaves={js.leaves} literals={js.literals} maxvcc={js.vnodes.foldl (fun m v => max m v.cc) 0} bytes={s.text.size} kind={s.kind}"
     | _, _ => s!"{s.id} corr=BADINPUT inv=ok judge=BADINPUT"
 
 /-- A rebalancing case: the REAL `ts_subtree_compress` / `ts_parser__balance_subtree` ran on the tree
@@ -72,6 +72,15 @@ def runBalance (s : St) : String :=
     s!"{s.id} corr={corr} inv=ok judge={judge} raw={b.root.size} vis=0 inner={cs.inner} leaves={la.length} changed={changed} balcase=1 balin={if inSumm then 1 else 0} balhyp={if hyp then 1 else 0} balconcl={if concl then 1 else 0} balwhy={if isErrSym b.root.data.symbol then "errsym" else toString (rotWhy lang b.root.data.symbol b.root)} bytes=0 kind={s.kind}"
   | _, _, _ => s!"{s.id} corr=BADINPUT inv=ok judge=BADINPUT"
 
+/-- `widths k=v …` (measured by the unity build on the real struct) judged against `assumedBits`. -/
+def runWidths (fields : List String) : String :=
+  let measured := fields.filterMap fun f => match f.splitOn "=" with
+    | [k, v] => v.toNat?.map fun n => (k, n)
+    | _ => none
+  let bad := widthFails measured
+  let corr := if bad.isEmpty then "ok" else "FAIL tie:field-widths :: tie:field-widths: " ++ ", ".intercalate bad
+  s!"widths-0 corr={corr} inv=ok judge=ok raw=0 widthcase=1 measured={measured.length} assumed={assumedBits.length} kind=widths"
+
 def step (s : St) (line : String) : IO St := do
   if s.mode == 1 then
     if line == "enddeflang" then
@@ -101,6 +110,7 @@ def step (s : St) (line : String) : IO St := do
   | "api" :: _ => return { s with mode := 3, api := #[] }
   | ["notree", why] => return { s with notree := why }
   | ["run"] => IO.println (runCase s); return s
+  | "widths" :: fields => IO.println (runWidths fields); return s
   | _ => return s
 
 def main : IO Unit := do
